@@ -68,6 +68,7 @@ type SpecDB struct {
 	fieldFns       map[string]*ssa.Function // field array name -> spec function standing for calls through that func-typed field
 	getters        map[string]bool
 	detFns         map[string]bool
+	keepsArgs      map[string]bool // library functions trusted not to write through their slice arguments
 	guardSubs      map[string]map[int]bool
 	dynCallsAlways map[string]bool
 	lockHeld       map[string]string // function -> mutex field of its receiver that callers hold
@@ -196,7 +197,7 @@ func findFunc(prog *ssa.Program, all map[string]*ssa.Function, name string) *ssa
 }
 
 func buildSpecDB(prog *ssa.Program, pkgs []*packages.Package, allFns map[string]*ssa.Function) *SpecDB {
-	db := &SpecDB{contracts: map[string]*Contract{}, pure: map[string]bool{}, uninterp: map[string]bool{}, guards: map[string]map[int]int{}, invariants: map[string][]*ssa.Function{}, loopAnns: map[string]*LoopAnn{}, pureExts: map[string]bool{}, nullable: map[string]bool{}, lockCache: map[*ssa.Function]bool{}, tables: map[string]bool{}, effectFree: map[string]bool{}, fieldFns: map[string]*ssa.Function{}, getters: map[string]bool{}, dynCalls: map[string]*ssa.Function{}, detFns: map[string]bool{}, stubs: map[string]*ssa.Function{}, assumeAssert: map[string]bool{}}
+	db := &SpecDB{contracts: map[string]*Contract{}, pure: map[string]bool{}, uninterp: map[string]bool{}, guards: map[string]map[int]int{}, invariants: map[string][]*ssa.Function{}, loopAnns: map[string]*LoopAnn{}, pureExts: map[string]bool{}, nullable: map[string]bool{}, lockCache: map[*ssa.Function]bool{}, tables: map[string]bool{}, effectFree: map[string]bool{}, fieldFns: map[string]*ssa.Function{}, getters: map[string]bool{}, dynCalls: map[string]*ssa.Function{}, detFns: map[string]bool{}, keepsArgs: map[string]bool{}, stubs: map[string]*ssa.Function{}, assumeAssert: map[string]bool{}}
 	db.inlineExts = []string{"github.com/fatedier/golib/errors", "github.com/samber/lo"}
 	seen := map[string]bool{}
 	packages.Visit(pkgs, nil, func(p *packages.Package) {
@@ -658,6 +659,10 @@ func (db *SpecDB) readFile(prog *ssa.Program, p *packages.Package, spkg *ssa.Pac
 			case "det-fn":
 				for _, n := range dir[1:] {
 					db.detFns[expandName(n)] = true
+				}
+			case "keeps-args":
+				for _, n := range dir[1:] {
+					db.keepsArgs[expandName(n)] = true
 				}
 			case "getter":
 				for _, n := range dir[1:] {
